@@ -13,9 +13,7 @@ import (
 	"github.com/plgd-dev/go-coap/v3/message/pool"
 	"github.com/plgd-dev/go-coap/v3/net/observation"
 	"github.com/plgd-dev/go-coap/v3/options"
-	"github.com/plgd-dev/go-coap/v3/tcp"
 	tcpClient "github.com/plgd-dev/go-coap/v3/tcp/client"
-	"github.com/plgd-dev/go-coap/v3/udp"
 	udpClient "github.com/plgd-dev/go-coap/v3/udp/client"
 	"pgregory.net/rapid"
 
@@ -25,6 +23,7 @@ import (
 	"verif/memnet"
 	"verif/peer"
 	"verif/refcodec"
+	"verif/roles"
 	"verif/wire"
 )
 
@@ -109,6 +108,9 @@ type Scenario struct {
 	Transport string  `json:"transport"` // udp | tcp
 	Obs       []Obs   `json:"obs"`
 	Events    []Event `json:"events"`
+	// Role: "" a client connection; "server" the connection a tcp / dtls server creates for an accepted
+	// peer (the observer may be a server application)
+	Role string `json:"role,omitempty"`
 }
 
 type cbRec struct {
@@ -161,14 +163,19 @@ func Exec(t *testing.T, sc Scenario, r *evid.Run) *evid.Failure {
 		}
 		var observe func(ctx context.Context, path string, f func(*pool.Message)) (observer, error)
 		var closeConn func()
+		stopRole := func() {}
 		if sc.Transport == "udp" {
 			link := memnet.NewPacketLink(memnet.LinkCfg{LatencyMs: 1})
-			cc := endpoints.UDP(link.A, []udp.Option{
+			cc, stop, errRole := roles.Packet(sc.Role, link, bubble.Wait, []any{
 				options.WithMessagePool(pool.New(8, 2048)), options.WithPeriodicRunner(tk.Runner()),
 				options.WithBlockwise(false, 6, time.Second), options.WithGetToken(getToken),
 				options.WithLimitClientParallelRequest(16), options.WithLimitClientEndpointParallelRequest(16),
 				options.WithTransmission(8, 2*time.Second, 2),
 			}...)
+			if errRole != nil {
+				panic(errRole)
+			}
+			stopRole = stop
 			w = wire.UDP(link)
 			observe = func(ctx context.Context, path string, f func(*pool.Message)) (observer, error) {
 				return cc.Observe(ctx, path, f)
@@ -177,7 +184,7 @@ func Exec(t *testing.T, sc Scenario, r *evid.Run) *evid.Failure {
 			_ = udpClient.ExchangeLifetime
 		} else {
 			link := memnet.NewStreamLink(memnet.StreamCfg{})
-			cc, err := endpoints.TCP(link.A, []tcp.Option{
+			cc, stop, err := roles.Stream(sc.Role, link, bubble.Wait, []any{
 				options.WithMessagePool(pool.New(8, 2048)), options.WithPeriodicRunner(tk.Runner()),
 				options.WithBlockwise(false, 6, time.Second), options.WithGetToken(getToken),
 				options.WithLimitClientParallelRequest(16), options.WithLimitClientEndpointParallelRequest(16),
@@ -186,6 +193,7 @@ func Exec(t *testing.T, sc Scenario, r *evid.Run) *evid.Failure {
 			if err != nil {
 				panic(err)
 			}
+			stopRole = stop
 			w = wire.TCP(link)
 			observe = func(ctx context.Context, path string, f func(*pool.Message)) (observer, error) {
 				return cc.Observe(ctx, path, f)
@@ -337,6 +345,7 @@ func Exec(t *testing.T, sc Scenario, r *evid.Run) *evid.Failure {
 		bubble.Wait()
 		badWire = w.Bad()
 		closeConn()
+		stopRole()
 		bubble.Wait()
 	})
 	if res.Panic != "" {
@@ -443,6 +452,9 @@ var seqVals = []uint32{0, 1, 2, 3, 5, 10, 1<<23 - 1, 1 << 23, 1<<23 + 1, 1<<24 -
 
 func gen(t *rapid.T) Scenario {
 	sc := Scenario{Transport: rapid.SampledFrom([]string{"udp", "tcp"}).Draw(t, "transport")}
+	if rapid.IntRange(0, 2).Draw(t, "role") == 0 {
+		sc.Role = "server"
+	}
 	n := rapid.IntRange(1, 3).Draw(t, "nobs")
 	for i := 0; i < n; i++ {
 		sc.Obs = append(sc.Obs, Obs{
